@@ -33,7 +33,7 @@ CLAIMED = {
  "C10": ("address counters: every sequence of 3 (thorough: 4) statements from ORG/RORG/PHASE/DEPHASE/SEGMENT/SAVE/RESTORE/emit/reserve with arbitrary 64-bit arguments through the real asmallg.c handlers and asmsub.c ProgCounter/EProgCounter against a reference model of per-segment counters, phase stacks and the save stack; ALIGN n as separate obligations (n <= 255, addresses around 0 and around 2^31)",
          "DESIGN.md C10", "argument values through a stub evaluator; WriteCode cut to its contract (verified in C04 writecode); ChkPC accepts everything; STRUCT/UNION symbols and SEGMENT name parsing outside"),
  "C14": ("Intel 4004/4040 (code4004.c complete: the real InitFields, MakeCode_4004, all Decode* handlers and register parsers) against a reference encoder written from the MCS-4/MCS-40 instruction set: all 45 operand-less mnemonics x CPU variant, all register and register-pair forms in both spellings, BBL/LDM/FIM/JUN/JMS/JCN/ISZ with arbitrary 64-bit operand values and any PC",
-         "DESIGN.md C14", "claimed for the 4004/4040 target only; instruction hash table replaced by a list contract filled by the real InitFields; contract evaluator for operand values; 6502/65C02, Z80, MSP430, AVR, the Z80-syntax mode and undocumented instructions of the 8085 are not covered"),
+         "DESIGN.md C14", "claimed for the 4004/4040 target only; instruction hash table replaced by a list contract filled by the real InitFields; contract evaluator for operand values; 6502/65C02, Z80, MSP430, the AVR memory/long-jump forms, the Z80-syntax mode and undocumented instructions of the 8085 are not covered"),
  "C19": ("MakeList of asmlist.c: the address shown on a listing line is the load address + phase of the line's code, the listed words are the emitted bytes in order, each byte exactly once, and MakeList leaves code buffer, CodeLen and counters alone",
          "DESIGN.md C19", "listing formatter replaced by a token recorder; radix 16; plus the per-line reset of ListLine/CodeLen/DontPrint in ProcessFile; MAP, symbol table and share file outputs are not covered"),
  "C20": ("position selection for diagnostics: GetErrorPos and INCLUDE/MACRO/REPT_GetPos over chains of <= 3 input tags in native and -gnuerrors style; ExpandINCLUDE_Core/INCLUDE_Restorer reinstate the enclosing file's physical line counter and name; EXPECT/ENDEXPECT bookkeeping (asmerr.c); physical-line counting of ReadLnCont",
